@@ -184,6 +184,14 @@ def run(tier, seed, replay):
             consts=sess_consts(k, "server", True, MaxPid=3, MaxPack=3, MaxAdv=2, Skews="{0,30}", Deltas=dl_srv), workers=2, timeout=14000, heap="6g")
         add("client-graph", "sgraph", module="MCUdpSession", cfg="MCUdpSession.cfg",
             consts=sess_consts(k, "client", True, MaxPid=2, MaxPack=3, MaxAdv=3, Deltas="{93,179,180}"), workers=2, timeout=14000, heap="6g")
+    # (S-guard) the client's one-minute guard against junk, small enough to be covered completely in both tiers: three server
+    # sessions with one packet each, genuine and forged deliveries, clock steps 1 tick / 60 s - 1 ns / 60 s.  Every behaviour
+    # of this graph is replayed with forged copies of every packet (ids of the current, the old and unknown sessions) after
+    # every step, and once more without them: e.g. change s1->s2, junk carrying s1's id within the next minute, change to s3
+    # more than 60 s after the first change but less than 60 s after the junk.
+    add("client-guard-graph", "sguard", module="MCUdpSession", cfg="MCUdpSession.cfg",
+        consts=sess_consts(k, "client", True, MaxPid=1, MaxPack=3, MaxAdv=3, Deltas="{1,179,180}", CliKinds='{"good","forged"}'),
+        workers=2, timeout=14000 if big else 3000, heap="4g")
     add("both-sim", "ssim", module="MCUdpSession", cfg="MCUdpSession.cfg",
         consts=sess_consts(k, "both", True, CSess='{"c1","c2"}', MaxPid=4, MaxPack=12, MaxAdv=8, Skews="{-30,0,30}",
                            Deltas="{1,2,87,90,93,177,179,180,183,186}"),
@@ -201,6 +209,7 @@ def run(tier, seed, replay):
     tlc_summary = {}
     fbehs = []                          # filter behaviours
     sbehs = []                          # session behaviours
+    gbehs = []                          # session behaviours replayed with probes after every step (guard graph)
     uncovered = 0
     cexs = []
     pool = ThreadPoolExecutor(max_workers=6 if big else 8)
@@ -227,16 +236,19 @@ def run(tier, seed, replay):
             fbehs += behs
             continue
         g = vlib.Graph(r)
-        if kind in ("fgraph", "sgraph"):
-            paths, left = g.cover(seed=seed, max_len=14 if kind == "fgraph" else 16, max_paths=None if big else 1500)
-            if big:
+        if kind in ("fgraph", "sgraph", "sguard"):
+            full = big or kind == "sguard"
+            paths, left = g.cover(seed=seed, max_len=14 if kind == "fgraph" else 16, max_paths=None if full else 1500)
+            if full:
                 uncovered += left
             tlc_summary[name].update(edges=len(g.edges), paths=len(paths), uncovered_edges=left)
         else:
             paths = list({tuple(w): w for w in g.random_walks(1500 if big else 250, 45, seed=seed)}.values())
             tlc_summary[name].update(edges=len(g.edges), walks=len(paths))
         behs = [g.behaviour(p) for p in paths]
-        if kind == "fgraph":
+        if kind == "sguard":
+            gbehs += behs
+        elif kind == "fgraph":
             fbehs += behs
         else:
             sbehs += behs
@@ -310,11 +322,13 @@ def run(tier, seed, replay):
 
     # ------------------------------------------------------------------ replay: sessions
     t0 = time.time()
-    for i, b in enumerate(sbehs):
+    for i, b in enumerate(sbehs + gbehs):
         b["id"] = i + 1
     outs = common.run_parallel(binary, "TestSession",
-                               [{"behaviours": c, "seed": seed, "params": {"session": sess_prm}} for c in common.chunks(sbehs, 16) if c], 3600)
-    vlib.log("[replay] sessions: %d behaviours %.1fs" % (len(sbehs), time.time() - t0))
+                               [{"behaviours": c, "seed": seed, "params": {"session": sess_prm}} for c in common.chunks(sbehs, 12) if c] +
+                               [{"behaviours": c, "seed": seed, "params": {"session": dict(sess_prm, probeAll=True)}}
+                                for c in common.chunks(gbehs, 4) if c], 3600)
+    vlib.log("[replay] sessions: %d behaviours %.1fs" % (len(sbehs) + len(gbehs), time.time() - t0))
     ssteps = sdist = twins = probes = 0
     for res, out, rc in outs:
         res = common.absorb(v, res, out, rc, "session replay")
@@ -326,7 +340,7 @@ def run(tier, seed, replay):
     v.coverage["traces_validated_against_impl"] = nrep
     v.coverage["replay"] = {"filter_behaviours": len(fbehs), "filter_steps_x_bases": fsteps,
                             "filter_runs": v.coverage.pop("filter_runs", 0),
-                            "session_behaviours": len(sbehs), "session_steps": ssteps, "session_twin_runs": twins,
+                            "session_behaviours": len(sbehs) + len(gbehs), "guard_graph_behaviours_fully_probed": len(gbehs), "session_steps": ssteps, "session_twin_runs": twins,
                             "session_state_probes": probes, "session_distinct_action_outcomes": sdist}
     v.coverage["exhaustive"] = big and uncovered == 0
     return v.finish()
